@@ -230,17 +230,19 @@ func paramsStream(meta *common.Meta, c *corpus, infos []*linter.CheckerInfo) {
 	for _, p := range c.pkgs {
 		byPkg[p.Name] = p.Files
 	}
-	variants, ctorErrs := 0, 0
+	variants, ctorErrs, fpChecks := 0, 0, 0
+	damaged := map[*fw.File]bool{}
+	extraFiles := c.files
+	if len(extraFiles) > 6 {
+		extraFiles = []*fw.File{c.files[0], c.files[len(c.files)/3], c.files[2*len(c.files)/3], c.files[len(c.files)-1]}
+	}
 	for _, info := range infos {
 		var names []string
 		for k := range info.Params {
 			names = append(names, k)
 		}
 		sort.Strings(names)
-		files := byPkg[info.Name]
-		if len(files) == 0 {
-			files = c.files[:2]
-		}
+		files := append(append([]*fw.File(nil), byPkg[info.Name]...), extraFiles...)
 		for _, pn := range names {
 			cell := info.Params[pn]
 			def := cell.Value
@@ -279,7 +281,17 @@ func paramsStream(meta *common.Meta, c *corpus, infos []*linter.CheckerInfo) {
 					for _, f := range files {
 						ctx.SetPackageInfo(f.Pkg.Info, f.Pkg.Types)
 						ctx.SetFileInfo(f.Name, f.AST)
+						// the read-only obligation holds under EVERY parameter value, not only the defaults
+						fp0, _ := fw.ASTFingerprint(f.AST)
+						shape0 := fw.ASTShape(f.AST)
 						fw.SafeCheck(chk, f)
+						fpChecks++
+						if fp1, _ := fw.ASTFingerprint(f.AST); fp1 != fp0 && !damaged[f] {
+							damaged[f] = true
+							meta.Fail("C05/"+info.Name+"/ast-mutation", fmt.Sprintf("%s: with parameter %s=%v the syntax tree of %s differs after Check", info.Name, pn, val, f.ID()),
+								map[string]interface{}{"checker": info.Name, "param": pn, "value": val, "file": f.Path, "shape_before": shape0, "shape_after": fw.ASTShape(f.AST),
+									"replay": "set -@" + info.Name + "." + pn + "; NewChecker; fingerprint(file); Check(file); fingerprint(file)"})
+						}
 					}
 					stage = "Check"
 					reg1 = fw.SnapRegistry()
@@ -301,6 +313,7 @@ func paramsStream(meta *common.Meta, c *corpus, infos []*linter.CheckerInfo) {
 			}
 		}
 	}
+	meta.Distribution["param_variant_fingerprinted_checks"] = fpChecks
 	meta.Distribution["param_variants_tried"] = variants
 	meta.Distribution["param_variants_rejected_by_constructor"] = ctorErrs
 }
